@@ -44,6 +44,18 @@ CLAIMS["C07"] = dict(
     note=TB + "NOT covered: the rules' own state machines (an IndexError inside a rule surfaces as BadPluginError, it is not excluded), "
               "range of token-driven positions (C05), uniqueness of what a single rule reports.")
 
+CLAIMS["C13"] = dict(
+    text="Proof, by 2-safety obligations decided on the real source, that nothing survives from one file to the next: for each of the 46 "
+         "rules and their helper classes every field written per file (154 fields, computed from the AST) is re-assigned by starting_new_file "
+         "a value that depends on constants and configuration fields only, or carries a recorded disposition (guarded / drained / conditional) "
+         "whose side-condition is re-checked; PluginManager.starting_new_file empties the pragma tables and returns a fresh context (pyvc); "
+         "every class-level variable of the parser that is written after import is re-initialised by an initialiser that __transform runs for "
+         "every document before the block pass; the block pass re-creates stack, document and pragma-line map before anything can raise; "
+         "ReturnCodeHelper.reset and the zeroing of the failure counter at initialisation (pyvc).",
+    note=TB + "Syntactic determinism stands in for the relational proof: an expression built from constants, constructors and configuration "
+              "fields is equal in two runs with equal configuration. Dispositions (14 fields) rest on stated stream properties (every block "
+              "quote closes, the stream ends with an end-of-stream token). Third-party plugins are not covered.")
+
 NA = {
     "C01": "totality of the ~60 kLoC parser is a postcondition of TokenizedMarkdown.transform; no contract chain within reach without a Python deductive verifier (DESIGN.md 7)",
     "C02": "round-trip of parser + 5 kLoC regenerator needs the token stream specified as an encoding of the document (C03+C04+C05 in full) first (DESIGN.md 7)",
